@@ -39,7 +39,7 @@ def run(ctx):
         if isinstance(x, pendulum.Date):
             return ("Date", x.year, x.month, x.day)
         if isinstance(x, pendulum.Time):
-            return ("Time", x.hour, x.minute, x.second, x.microsecond, x.tzinfo)
+            return ("Time", x.hour, x.minute, x.second, x.microsecond, repr(x.tzinfo), x.utcoffset(), x.isoformat())
         if isinstance(x, pendulum.Interval):
             return ("Interval", obs(x.start), obs(x.end), x._absolute, _dt.timedelta.total_seconds(x), x.years, x.months, x.remaining_days)
         if isinstance(x, pendulum.Duration):
@@ -82,6 +82,8 @@ def run(ctx):
         check(pendulum.datetime(2020, 5, 17, 3, tz=pendulum.timezone(rng.randrange(-43200, 43200, 900))), {"fold": 0})
         check(pendulum.date(wall.year, wall.month, wall.day))
         check(pendulum.time(wall.hour, wall.minute, wall.second, rng.randrange(10 ** 6)))
+        check(pendulum.Time(wall.hour, wall.minute, wall.second, rng.randrange(10 ** 6), tzinfo=pendulum.timezone(rng.choice((0, 3600, -16200, 19800)))))
+        check(pendulum.Time(wall.hour, wall.minute, wall.second, tzinfo=pendulum.timezone("UTC")))
         comps = {k: rng.randrange(-50, 50) for k in rng.sample(["years", "months", "weeks", "days", "hours", "minutes", "seconds", "microseconds"], rng.randrange(1, 6))}
         d = pendulum.duration(**comps)
         check(d, {"has_years_or_months": bool(d.years or d.months)})
